@@ -276,7 +276,7 @@ def gen_matrix(rng, nprng, n, g, dtype, kind):
     return X
 
 
-def gen_case(rng, malformed=None):
+def gen_case(rng, malformed=None, mapper_none=False):
     nprng = np.random.default_rng(rng.randrange(2 ** 31))
     n = rng.randint(1, 8)
     g = rng.randint(1, 6)
@@ -310,6 +310,42 @@ def gen_case(rng, malformed=None):
     elif malformed == 'slash':
         genes[rng.randrange(g)] = rng.choice(
             (p['slashed'] or []) + ['we/ird'])
+    # gene_id_mapper=None (the default of the CLI): the species is inferred
+    # from the names; families: every name a real Ensembl id of the species,
+    # most of them with a version suffix (GENCODE style), or a mix with
+    # symbols / unknown names that still lets the species be inferred
+    mapper = 'explicit'
+    if mapper_none:
+        mapper = 'none'
+        real = [v for v in dict.fromkeys(lookup_of(species).values())][
+            11:4000:97]
+        rng.shuffle(real)
+        fam = rng.choice(['all_ens_versioned', 'all_ens_versioned',
+                          'all_ens_some_versioned', 'ens_plus_others'])
+        picked = real[:g]
+        genes2 = []
+        for k, e in enumerate(picked):
+            if fam == 'all_ens_versioned' or (k == 0) or rng.random() < 0.5:
+                genes2.append('%s.%d' % (e, rng.randint(1, 13)))
+            else:
+                genes2.append(e)
+        if fam == 'ens_plus_others' and g >= 2:
+            for k in range(1, g):
+                if rng.random() < 0.5:
+                    genes2[k] = rng.choice(p['known'] + UNKNOWN[:4])
+            if len(set(expected_genes(genes2, species, 0)[0])) != g or \
+                    len(set(genes2)) != g:
+                genes2 = ['%s.%d' % (e, 2) for e in picked]
+        if fam == 'all_ens_some_versioned' and rng.random() < 0.3:
+            # no version anywhere, nothing to clip: no change needed
+            genes2 = list(picked)
+        genes = genes2
+        if malformed == 'two_to_one' and g >= 2:
+            genes[1] = genes[0].split('.')[0] + '.%d' % rng.randint(14, 20)
+        elif malformed == 'dup_gene' and g >= 2:
+            genes[-1] = genes[0]
+        elif malformed == 'empty_gene':
+            genes[rng.randrange(g)] = ''
     encoding = rng.choice(['dense', 'csr', 'csc'])
     if encoding == 'dense':
         chunks = rng.choice([None, None, [1, 1], [1, g], [n, 1],
@@ -326,8 +362,8 @@ def gen_case(rng, malformed=None):
         'layer': rng.choice(['X', 'X', 'raw_counts']),
         'round_to_int': rng.random() < 0.75,
         'expected_max': rng.choice([None, 20, 20]),
-        'species': species,
-        'start': rng.choice([0, 0, 3]),
+        'species': species, 'mapper': mapper,
+        'start': 0 if mapper == 'none' else rng.choice([0, 0, 3]),
         'obs_col': [rng.choice(['a', 'b', 'c']) for _ in cells],
     }
 
@@ -466,6 +502,7 @@ def check_validate(ctx, case):
     ctx.count('dtype:' + case['dtype'])
     ctx.count('layer:' + ('X' if case['layer'] == 'X' else 'named'))
     ctx.count('round:%s' % case['round_to_int'])
+    ctx.count('gene_id_mapper:%s' % case.get('mapper', 'explicit'))
     n, g = len(case['cells']), len(case['genes'])
     impl = {}
     with pipeline.workdir('c16_') as d:
@@ -485,10 +522,14 @@ def check_validate(ctx, case):
         stale = case.get('stale_target', True)
         if stale:
             out_path.write_bytes(b'stale')
-        mapper = (GeneIdMapper.from_human() if case['species'] == 'human'
-                  else GeneIdMapper.from_mouse())
-        for _ in range(case['start']):
-            mapper.random_name_generator.name()
+        if case.get('mapper', 'explicit') == 'none':
+            mapper = None       # species inferred from the gene names
+        else:
+            mapper = (GeneIdMapper.from_human()
+                      if case['species'] == 'human'
+                      else GeneIdMapper.from_mouse())
+            for _ in range(case['start']):
+                mapper.random_name_generator.name()
         tmp = pathlib.Path(d) / 'tmp'
         tmp.mkdir()
         with pipeline.quiet():
@@ -1121,9 +1162,14 @@ def run(ctx):
     n_dtype = 400 if quick else 4000
     n_help = 40 if quick else 450
     for i in range(n_valid):
-        check_validate(ctx, gen_case(rng))
+        check_validate(ctx, gen_case(rng, mapper_none=(i % 4 == 3)))
     for i in range(n_bad):
         check_validate(ctx, gen_case(rng, malformed=MALFORMED[i % len(MALFORMED)]))
+    # the default mapper with two versions of one gene / duplicates / blanks
+    for i in range(6 if quick else 40):
+        check_validate(ctx, gen_case(
+            rng, malformed=['two_to_one', 'two_to_one', 'dup_gene',
+                            'empty_gene'][i % 4], mapper_none=True))
     for i in range(n_dtype):
         check_choose_dtype(ctx, rng)
     for i in range(n_help):
